@@ -15,6 +15,7 @@ Fields of an op are separated by single blanks (or TABs); trees use the canonica
   codec-gen  <class> <index>   canonical tree of `encode v_index`
   codec-val  <class> <index>   `v_index` itself
   codec-classes                names of the modelled classes
+  codec-reset <class>          `ok`; marks the start of a class's block of cases (stateless otherwise)
 -/
 namespace Qx.Driver.CodecOps
 open Qx.Xml Qx.Xml.Codec
@@ -216,6 +217,7 @@ def step (line : String) : Option String :=
   let (cls, arg) := splitField rest
   some <|
     if op == "codec-classes" then " ".intercalate (Classes.all.map (·.1))
+    else if op == "codec-reset" then withClass cls fun _ => "ok"
     else if op == "codec-norm" then withClass cls fun S =>
       match readTree arg with
       | some x => match S.norm x with
